@@ -196,3 +196,61 @@ Example approx_hyp_satisfiable :
   rect 5 (a_vals A) /\ a_vals A <> [] /\ a_start B < a_stop B /\
   exists out, snap_pl [A; B] None None None = Ok out /\ length out = 2%nat.
 Proof. simpl. split; [repeat constructor|]. split; [discriminate|]. split; [reflexivity|]. eexists. split; [vm_compute; reflexivity|reflexivity]. Qed.
+
+(* ================= glue with C03 (the exact sweep): coq/Proofs/LandscapeGlueP.v, LandscapeGlueArithP.v ================= *)
+From Persim Require Spec.LandscapeS Model.SweepM Proofs.ApproxP Spec.LandscapeGlueS Proofs.LandscapeGlueP Proofs.LandscapeGlueArithP.
+
+(* every depth the sweep (Model/SweepM.v, shortcut off) returns for a finite diagram of positive-length bars is well
+   formed in the sense of this file (wf: non-empty, abscissae strictly increasing, first and last ordinate 0) and in the
+   sense of C08.vectorize_exact (wellformed_depth): each depth starts with (b,0) and the inner loop closes it with (d,0) *)
+Theorem sweep_output_wf : forall bars : list bar, (forall a, In a bars -> fst a < snd a) ->
+  exists L, SweepM.sweep false bars = Some L /\ wfL L /\ Forall ApproxP.wellformed_depth L /\
+    (forall l, In l L -> exists b d mid, l = (b, 0) :: mid ++ [(d, 0)]).
+Proof. exact LandscapeGlueP.sweep_output_wf_P. Qed.
+Print Assumptions sweep_output_wf.
+
+(* ... and through the public entry point PersLandscapeExact(dgms, hom_deg) *)
+Theorem exact_landscape_output_wf : forall dgms h dg (bars : list bar), nth_error dgms h = Some dg ->
+  SweepM.finite_bars (SweepM.strip_trailing_inf dg) = Some bars -> (forall a, In a bars -> fst a < snd a) ->
+  exists L, SweepM.exact_landscape false true dgms h = SweepM.Ok L /\ LandscapeS.landscape_ok bars L /\
+    wfL L /\ Forall ApproxP.wellformed_depth L.
+Proof. exact LandscapeGlueP.exact_landscape_output_wf_P. Qed.
+Print Assumptions exact_landscape_output_wf.
+
+(* expr_pointwise on landscapes OF DIAGRAMS: for every list of finite diagrams of positive-length bars, every
+   environment whose i-th leaf carries the critical pairs the sweep computes from the i-th diagram, and every
+   expression tree over + - neg c* /c on these leaves: the model evaluates it (no degree / fuel error), the result is
+   well formed, and its depth k at EVERY t is the same expression of the (k+1)-st largest tents of the diagrams
+   (Spec/LandscapeGlueS.expr_land).  No well-formedness hypothesis on the leaves is left: sweep_output_wf provides it. *)
+Theorem arith_on_diagram_landscapes : forall v d (dgs : list (list bar)) env e,
+  Forall2 (fun D A => (forall a, In a D -> fst a < snd a) /\ SweepM.sweep false D = Some (e_cp A) /\ e_deg A = d) dgs env ->
+  expr_ok (length dgs) e ->
+  exists R, eval_expr v env e = Ok R /\ e_deg R = d /\ wfL (e_cp R) /\
+    forall k t, evalL (e_cp R) k t == LandscapeGlueS.expr_land dgs e (S k) t.
+Proof. exact LandscapeGlueArithP.arith_on_diagram_landscapes_P. Qed.
+Print Assumptions arith_on_diagram_landscapes.
+
+(* such an environment exists for every list of diagrams *)
+Theorem diagram_environment_exists : forall d (dgs : list (list bar)),
+  (forall D, In D dgs -> forall a, In a D -> fst a < snd a) ->
+  exists env, Forall2 (fun D A => (forall a, In a D -> fst a < snd a) /\ SweepM.sweep false D = Some (e_cp A) /\ e_deg A = d) dgs env.
+Proof. exact LandscapeGlueArithP.diagram_env_exists. Qed.
+Print Assumptions diagram_environment_exists.
+
+(* non-vacuity: two diagrams with interacting bars, the tree (P0 - P1) + 2 * P1 / 4 - (-P0): the hypotheses hold and the
+   model's result at depth 0 (k = 1), t = 5/2 is the expression of the largest tents: (3/2 - 3/2) + 2*(3/2)/4 + 3/2 = 9/4 *)
+Example arith_on_diagrams_instance :
+  let dgs := [[(1, 5); (2, 8); (3, 4)]; [(0, 4); (1, 3)]] in
+  let env := [mkE 1 [[(1, 0); (6 # 2, 4 # 2); (7 # 2, 3 # 2); (10 # 2, 6 # 2); (8, 0)]; [(2, 0); (7 # 2, 3 # 2); (5, 0)]; [(3, 0); (7 # 2, 1 # 2); (4, 0)]];
+              mkE 1 [[(0, 0); (4 # 2, 4 # 2); (4, 0)]; [(1, 0); (4 # 2, 2 # 2); (3, 0)]]] in
+  let e := ESub (EAdd (ESub (Leaf 0) (Leaf 1)) (EDiv (EScale 2 (Leaf 1)) 4)) (ENeg (Leaf 0)) in
+  Forall2 (fun D A => (forall a, In a D -> fst a < snd a) /\ SweepM.sweep false D = Some (e_cp A) /\ e_deg A = 1%Z) dgs env /\
+  expr_ok (length dgs) e /\
+  match eval_expr Fixed env e with Ok R => Qeq_bool (evalL (e_cp R) 0 (5 # 2)) (9 # 4) | _ => false end = true /\
+  LandscapeGlueS.expr_land dgs e 1 (5 # 2) == 9 # 4.
+Proof. cbv zeta. split; [|split; [|split]].
+  - constructor; [|constructor; [|constructor]]; (split; [|split; [vm_compute; reflexivity|reflexivity]]);
+    intros a H; simpl in H; repeat (destruct H as [H|H]; [subst a; reflexivity|]); contradiction.
+  - simpl. repeat split; auto; discriminate.
+  - vm_compute. reflexivity.
+  - vm_compute. reflexivity. Qed.
